@@ -44,7 +44,9 @@ def whole_column(ctx, repo):
         if len(ctx.samples) < 8:
             ctx.sample({"whole_column_function": f"{mod.rel}:{fd.name}", "kind": kind, "findings": len(fs)})
     itf = repo.module("interface.py")
-    fs = list(label_alignment(itf))
+    from ._wholecol import converter_keeps_index
+
+    fs = list(label_alignment(itf)) + [(a, b, c, d) for a, b, c, d in converter_keeps_index(repo)]
     ctx.ob("W4", ok=not fs, distinct="interface", n=4)
     for rid, key, ln, msg in fs:
         ctx.violation(rid, key, f"src/_gettsim/interface.py:{ln}", msg)
@@ -71,6 +73,17 @@ def whole_column(ctx, repo):
             ctx.violation(rid, f"{mod.rel}:{fd.name}|{key}", f"src/_gettsim/{mod.rel}:{ln} {fd.name}", msg)
     ctx.ob("W8", ok=True, distinct="functions scanned", n=scanned)
     ctx.ob("W9", ok=True, distinct="functions scanned", n=scanned)
+    from ._wholecol import kernel_hygiene
+
+    ctx.rule("W10", "a whole-column function never stores into one of its argument arrays")
+    ctx.rule("W11", "a result buffer is not allocated with the dtype of a caller-supplied fill value and then filled with a column's values")
+    ctx.rule("W12", "grouping functions do not compare a column with its own neighbours (slices shifted against each other, roll / shift / diff)")
+    for mod, fd, kind in fns:
+        fs = list(kernel_hygiene(mod, fd, kind))
+        for rid in ("W10", "W11", "W12"):
+            ctx.ob(rid, ok=not [f for f in fs if f[0] == rid], distinct=(mod.rel, fd.name))
+        for rid, key, ln, msg in fs:
+            ctx.violation(rid, f"{mod.rel}:{fd.name}|{key}", f"src/_gettsim/{mod.rel}:{ln} {fd.name}", msg)
     for mod, fd, kind in fns:
         fs = list(pointer_findings(mod, fd, kind))
         for rid in ("W6", "W7"):
